@@ -98,6 +98,11 @@ func (r *reassembler) process(first, last uint16, more bool, vv buffer.Vectorise
 	if r.deleted < len(r.holes) {
 		return buffer.VectorisedView{}, false, consumed
 	}
+	if r.heap.Len() == 0 {
+		// Another goroutine has already reassembled this datagram and is about
+		// to release the reassembler; this fragment is a late duplicate.
+		return buffer.VectorisedView{}, false, consumed
+	}
 	res, err := r.heap.reassemble()
 	if err != nil {
 		panic(fmt.Sprintf("reassemble failed with: %v. There is probably a bug in the code handling the holes.", err))
